@@ -28,6 +28,8 @@ C05's subject; with it a re-run after a refused run would not reach the gate).
 
 from __future__ import annotations
 
+from typing import Literal
+
 from pyiron_workflow import as_function_node, as_macro_node
 
 CALLS: list = []
@@ -152,6 +154,19 @@ def CGC(x: list[int], y: dict[str, int], z):
     """CG with the cache on"""
     CALLS.append((x, y, z))
     return x, y, z
+
+
+@as_function_node("ox", "oy", "oz", validate_output_labels=False, use_cache=False)
+def CT(x: tuple[int, int], y: Literal[1, 2], z):
+    """hints under which a value can compare equal to a valid one and still be ill-typed"""
+    CALLS.append((x, y, z))
+    return x, y, z
+
+
+@as_macro_node("ox", "oy", "oz", use_cache=False)
+def MT(self, x, y, z):
+    self.c = CT(x=x, y=y, z=z)
+    return self.c.outputs.ox, self.c.outputs.oy, self.c.outputs.oz
 
 
 @as_macro_node("ox", "oy", "oz", use_cache=False)
@@ -346,11 +361,16 @@ def _factories():
         252: lambda: {"a": 1},
         253: lambda: {1: "x"},
         254: lambda: [7, 8, 9],
+        # values that compare equal to well-typed ones but are of another type
+        260: lambda: (2, 3),
+        261: lambda: (2.0, 3.0),
+        262: lambda: 1.0,
+        263: lambda: 2.0,
     }
 
 
 ADV_KEYS = (200, 201, 202, 203, 204, 205, 206, 210, 211, 212, 213, 214, 220, 221, 222, 223, 224, 225, 226, 227,
-            230, 231, 232, 240, 241, 242, 243, 250, 251, 252, 253, 254)
+            230, 231, 232, 240, 241, 242, 243, 250, 251, 252, 253, 254, 260, 261, 262, 263)
 # in-place changes the harness (the other holder of the object) can make: value index before -> after
 MUTATIONS = {(250, 251), (251, 250), (250, 254), (254, 250), (252, 253), (253, 252)}
 
@@ -387,6 +407,8 @@ def tag(v):
         return "float:" + float.__repr__(v)
     if t is list:
         return "list:" + ",".join(tag(x) for x in list.__iter__(v))
+    if t is tuple:
+        return "tuple:" + ",".join(tag(x) for x in tuple.__iter__(v))
     if t is dict:
         return "dict:" + ",".join(tag(a) + "=" + tag(b) for a, b in dict.items(v))
     if type.__instancecheck__(type, v):
